@@ -69,6 +69,8 @@ def lean_opt(x):
 
 def probe(fn):
     from typedpy.structures import Field
+    from typedpy.structures.structures import FieldMeta
+    FieldMeta._registry = {}
     try:
         r = fn()
     except Exception as e:  # pylint: disable=broad-except
@@ -182,9 +184,25 @@ def form_rows():
     return out
 
 
+class _CleanRegistry:
+    """probe with an empty `FieldMeta._registry` (implicit-wrapper cache) and leave it untouched, so that the
+    table does not depend on what ran before in this process"""
+
+    def __enter__(self):
+        from typedpy.structures.structures import FieldMeta
+        self.meta = FieldMeta
+        self.saved = FieldMeta._registry
+        FieldMeta._registry = {}
+
+    def __exit__(self, *a):
+        self.meta._registry = self.saved
+
+
 def render(namespace):
-    body = ",\n".join(rows())
-    forms = ",\n".join(form_rows())
+    with _CleanRegistry():
+        body = ",\n".join(rows())
+    with _CleanRegistry():
+        forms = ",\n".join(form_rows())
     return (
         "/-\n  %s/TypeMap.lean — image of typedpy's builtin/typing -> field conversion functions on the C13\n"
         "  vocabulary.  GENERATED by extract/type_map.py from the typedpy working tree; do not edit.\n-/\n"
